@@ -114,9 +114,9 @@ func wsCase(url string, e *env, proto string, phase string, msgType int, frame [
 			}
 			if phase == "post" {
 				c.WriteMessage(websocket.TextMessage, []byte(`{"type":"`+sub+`","id":"zz","payload":{"query":"{ name }"}}`))
-				readFrames(c, func(t, id string) bool { return t == "complete" && id == "zz" }, res, 700*time.Millisecond)
+				readFrames(c, func(t, id string) bool { return t == "complete" && id == "zz" }, res, 3*time.Second)
 			} else {
-				readFrames(c, func(t, id string) bool { return false }, res, 250*time.Millisecond)
+				readFrames(c, func(t, id string) bool { return t == "connection_ack" }, res, 2*time.Second)
 			}
 		}()
 	}
